@@ -52,6 +52,10 @@ structure TInfo where
   nextTs : Option Nat := none
   tick : Option Nat := none
   startTime : Option Nat := none
+  /-- fault code of the transfer attempt in progress (stream sources): `none` = the source works; `some 0` =
+      `BlockEncoder::new` fails (the source cannot be rewound); `some (k+1)` = the encoder is created but its first
+      read fails.  In both cases the attempt yields no packet. -/
+  attempt : Option Nat := none
   deriving Repr, DecidableEq
 
 /-- `FileDesc` (+ the fields of `ObjectDesc.config` the scheduler reads) -/
@@ -68,6 +72,9 @@ structure FileDesc where
   allowStop : Bool
   published : Bool
   info : TInfo
+  /-- fault schedule of a stream source: code of the n-th transfer attempt (n = completed transfers so far); beyond
+      the list, and for buffer sources (`[]`), the source works -/
+  faults : List Nat := []
   deriving Repr, DecidableEq
 
 /-- abstraction of `BlockEncoder` -/
@@ -81,6 +88,8 @@ structure Enc where
 structure Cur where
   key : Nat
   enc : Enc
+  /-- `BlockEncoder::new` failed: `SenderSession::get_next` releases the file at once -/
+  openFail : Bool := false
   deriving Repr, DecidableEq
 
 /-- `SenderSessionList` of one priority queue -/
@@ -114,6 +123,8 @@ structure AddArgs where
   start : Option Nat
   target : Option Target
   allowStop : Bool
+  /-- fault schedule of the (stream) source, see `FileDesc.faults` -/
+  faults : List Nat := []
   deriving Repr, DecidableEq
 
 /-- everything that happens, newest first -/
@@ -221,7 +232,8 @@ def transferInit (f : FileDesc) (now tk : Nat) : FileDesc :=
       lastStart := some now
       tick := tick
       nextTs := if tick.isSome then some now else i.nextTs
-      count := if i.count == f.maxCount && f.carousel.isSome then 0 else i.count }
+      count := if i.count == f.maxCount && f.carousel.isSome then 0 else i.count
+      attempt := f.faults[i.total]? }
 
 /-- `TransferInfo::done` -/
 def transferDoneInfo (f : FileDesc) (now : Nat) : FileDesc :=
@@ -396,8 +408,11 @@ def gateBlocked (f : FileDesc) (now : Nat) : Bool :=
 /-- `BlockEncoder::new(file, interleave, is_last_transfer)` in `SenderSession::get_next`
     (`is_last_transfer` is evaluated AFTER `transfer_started`, as in the code) -/
 def startCur (s : State) (t : Nat) : Cur :=
-  { key := t, enc := { sent := 0, stopped := false,
-                       closable := match getF s.objs t with | some f => isLastTransfer f | none => false } }
+  { key := t, enc := { sent := 0,
+                       -- a faulty attempt yields no packet: its encoder is "stopped" from the start
+                       stopped := match getF s.objs t with | some f => f.info.attempt.isSome | none => false,
+                       closable := match getF s.objs t with | some f => isLastTransfer f | none => false },
+    openFail := match getF s.objs t with | some f => f.info.attempt == some 0 | none => false }
 
 def startFdtCur (k : Nat) : Cur := { key := k, enc := { sent := 0, stopped := false, closable := false } }
 
@@ -441,6 +456,13 @@ def runFdt : Nat → State → Nat → State × Out
         | (none, _) => runFdt fuel (fdtRelease s c.key now) now
         | (some (idx, _), e) => (fdtStep s c e f.fdtId now idx, .fdt c.key f.fdtId idx)
 
+/-- the file whose `BlockEncoder::new` failed in the `get_next` of this call (`fresh`): `get_next` releases it at once
+    (`release_file` -> `Fdt::transfer_done`), before the pending-FDT test and the pacing gate -/
+def openFailed (fresh : Bool) (s : State) (cur : Option Cur) : Option (Nat × FileDesc) :=
+  match cur with
+  | some c => if fresh && c.openFail then (getF s.objs c.key).map (fun f => (c.key, f)) else none
+  | none => none
+
 /-- `SenderSession::run` for a file session; returns the new slot content -/
 def runFile : Nat → State → Nat → Option Cur → Nat → List (Nat × Nat) → State × Option Cur × Out
   | 0, s, _, cur, _, _ => (s, cur, .hang)
@@ -451,8 +473,13 @@ def runFile : Nat → State → Nat → Option Cur → Nat → List (Nat × Nat)
         match getNextFile s prio now ticks with
         | (s, some t) => (s, some (startCur s t))
         | (s, none) => (s, none)
+    -- `new_encoder`: the encoder has been created by this iteration
+    let fresh : Bool := match cur with | some _ => false | none => true
     let s := sc.1
     let cur := sc.2
+    match openFailed fresh s cur with
+    | some (k, _) => (transferDoneFile s k now, none, .none)
+    | none =>
     if !s.fdtQueue.isEmpty then (s, cur, .none) else
     match cur with
     | none => (s, none, .none)
@@ -462,7 +489,11 @@ def runFile : Nat → State → Nat → Option Cur → Nat → List (Nat × Nat)
       | some f =>
         if gateBlocked f now then (s, cur, .none) else
         match encRead f.nSym c.enc (canStop f && !s.files.contains c.key) with
-        | (none, _) => runFile fuel (transferDoneFile s c.key now) prio none now ticks
+        | (none, _) =>
+          -- a transfer that ends without any packet right after its encoder was created (the source fails at the
+          -- first read): release and give the hand back (`if new_encoder { return None }`), otherwise next file
+          if fresh then (transferDoneFile s c.key now, none, .none)
+          else runFile fuel (transferDoneFile s c.key now) prio none now ticks
         | (some (idx, b), e) => (pktStep s prio c.key now idx b, some { c with enc := e }, .pkt prio c.key idx b)
 
 /-- fuel of the `loop` in `SenderSession::run` (`Props.C12.run_no_hang`: never exhausted) -/
@@ -532,7 +563,7 @@ def addObject (s : State) (a : AddArgs) : State × Option Nat :=
   let fd : FileDesc :=
     { key := toi, isFdt := false, fdtId := 0, content := [], prio := a.prio, nSym := a.nSym,
       maxCount := a.maxCount, carousel := a.carousel, target := a.target, allowStop := a.allowStop,
-      published := false, info := { startTime := a.start } }
+      published := false, info := { startTime := a.start }, faults := a.faults }
   let s := { s with objs := s.objs ++ [fd], files := s.files ++ [toi], queue := s.queue ++ [toi] }
   (emit s (.opAdd toi a true), some toi)
 
